@@ -1,12 +1,16 @@
 #!/usr/bin/env python3
-"""regenerate lean/Resolved.lean so that the library root imports every module"""
+"""regenerate lean/Resolved.lean (library root = generated constants + every Model and Spec module;
+property modules are built as separate targets because helper-lemma files written independently
+may reuse declaration names) and print the list of property modules"""
 import glob, os
 ROOT = os.path.dirname(os.path.dirname(os.path.abspath(__file__)))
 mods = []
-for d in ["Props", "Spec", "Model", "Proofs"]:
+for d in ["Model", "Spec"]:
     for f in sorted(glob.glob(os.path.join(ROOT, "lean", "Resolved", d, "*.lean"))):
         mods.append("Resolved." + d + "." + os.path.basename(f)[:-5])
-text = "-- root of the `Resolved` library: every model, spec, proof and property module\nimport Resolved.Generated\n" + "".join(f"import {m}\n" for m in mods)
+text = "-- root of the `Resolved` library: generated constants, every model and spec module\nimport Resolved.Generated\n" + "".join(f"import {m}\n" for m in mods)
 p = os.path.join(ROOT, "lean", "Resolved.lean")
 if not os.path.exists(p) or open(p).read() != text:
     open(p, "w").write(text)
+props = sorted("Resolved.Props." + os.path.basename(f)[:-5] for f in glob.glob(os.path.join(ROOT, "lean", "Resolved", "Props", "*.lean")))
+print(" ".join(props))
